@@ -325,7 +325,7 @@ func (vc *VC) elemAddr(base, idx Term) Term {
 		vc.sc.Axiom(Eq(sx("ftag", a), "0"))
 		vc.sc.Axiom(Eq(sx("root", a), sx("root", base)))
 		// element storage lives in array objects (no slicing of arrays embedded in structs)
-		vc.sc.Axiom(Eq(sx("okind", sx("root", base)), "1"))
+		vc.sc.Axiom(Or(Eq(base, "nilref"), Eq(sx("okind", sx("root", base)), "1")))
 	}
 	return a
 }
